@@ -297,6 +297,14 @@ class ChunkFamily(Family):
             for ln in ((16777214, 16777215, 16777216) if tier == "thorough" else (16777216,)):
                 bump(stats, "payload_limit_cases")
                 yield ["ser.new", "ser.setcs 65536 0", f"ser.msg 9 1 0 0 0 ab*{ln}"] + (["des.new", "des.feedpk 11 all", "!chunk.rt 11 100000"] if ln <= 16777215 else [])
+            # the two limits together: a chunk size at or above the largest message (accepted up to 2^31-1) must not open a way
+            # around the payload limit, and a maximal payload in ONE chunk must still round-trip
+            for cs_ in (16777215, 16777216, 16777217, (1 << 31) - 1):
+                for ln in ((16777215, 16777216) if tier == "thorough" else (16777216,)):
+                    bump(stats, "payload_limit_with_huge_chunk_size")
+                    yield ["ser.new", f"ser.setcs {cs_} 0", f"ser.msg 9 1 0 0 0 ab*{ln}"] + \
+                          (["des.new", f"des.setcs {cs_}", "des.feedpk 1 all", "!chunk.rt 1 100000"] if ln <= 16777215 else []) + \
+                          ["ser.msg 8 1 5 0 0 0102"]
         # seed-independent small-scope part
         alpha = GC.small_alphabet()
         stats["small_alphabet"] = len(alpha)
